@@ -233,6 +233,9 @@ func errName(err error) string {
 
 // execEff: eff <none|deadline|canceled> <hasDeadline t/f> <clockPast t/f> — the real contextutil.EffectiveError.
 func execEff(f []string) vlib.Res {
+	if len(f) == 2 && f[1] == "new" {
+		return vlib.Res{Impl: "ok"}
+	}
 	if len(f) != 4 {
 		return vlib.Res{Impl: "bad-op"}
 	}
@@ -284,6 +287,9 @@ var procSerial int
 // that finishes 60 ms later (live/late: no usable Done channel) or is woken by its
 // own Done channel (expired/lazy/canceled).
 func execProc(f []string) vlib.Res {
+	if len(f) == 2 && f[1] == "new" {
+		return vlib.Res{Impl: "ok"}
+	}
 	if len(f) != 3 {
 		return vlib.Res{Impl: "bad-op"}
 	}
